@@ -2,7 +2,7 @@
     exercises truncation, failure after ante, self-destruct; and measurements the checker refuses. *)
 From Coq Require Import List Bool Arith ZArith Lia.
 Import ListNotations.
-Require Import Nib.C05.Model Nib.C05.Spec Nib.C05.Facts Nib.C05.Proofs Nib.C05.Check.
+Require Import Nib.C05.Model Nib.C05.Spec Nib.C05.Facts Nib.C05.Proofs Nib.C05.ProofsBundle Nib.C05.Check.
 Open Scope Z_scope.
 
 Definition e0 : env :=
@@ -99,4 +99,38 @@ Proof. vm_compute. repeat split; reflexivity. Qed.
 Example checker_rejects_stale_selfdestruct_balance :
   Pb {| m_env := e0; m_tx := t_kills; m_out := Ok; m_before := b1;
         m_after := bank_of [999999919488; 80519; 3; 0; 53; 0; 100; 0; 0; 997] 5000000000003 |} = false.
+Proof. vm_compute. reflexivity. Qed.
+
+(** a bundle of two signers (accounts 10 and 11): 10 sends nothing with a generous limit, 11 sends 1 unibi at
+    an odd price; each pays for its own gas *)
+Definition b2s : bank := bank_of [1000000000000; 7; 0; 50; 0; 0; 100; 0; 0; 1000; 1000000000000; 1000000000000] 9000000000000.
+Definition bm1 : bmsg := (10%nat, mktx (legacy 1000000000000) 100000 0 2%nat (EvmOk []) 21000).
+Definition bm2 : bmsg := (11%nat, mktx (legacy 1500000000001) 30000 1000000000000 2%nat (EvmOk []) 21000).
+Definition bm3 : bmsg := (10%nat, mktx (legacy 1000000000000) 20000 0 2%nat (EvmOk []) 0).   (* below intrinsic *)
+
+Lemma bundle_wf : benv_wf e0 [bm1; bm2].
+Proof.
+  constructor.
+  - exact (wf_nodup _ e0_wf).
+  - exact (wf_collector _ e0_wf).
+  - simpl. lia.
+  - intros m [<-|[<-|[]]]; simpl; intuition congruence.
+  - intros m [<-|[<-|[]]]; constructor; simpl; try lia; reflexivity.
+Qed.
+
+Definition showb (r : bank * boutcome) : boutcome * list Z * Z := (snd r, map (bal (fst r)) universe, supply (fst r)).
+
+Example bundle_nonvacuous :
+  showb (deliver_bundle e0 b2s [bm1; bm2]) =
+    (BDone [Ok; Ok], [1000000000000; 52507; 1; 50; 0; 0; 100; 0; 0; 1000; 999999979000; 999999968499], 9000000000000) /\
+  showb (deliver_bundle e0 b2s [bm1; bm2; bm3]) =
+    (BMsgErr, [1000000000000; 165007; 0; 50; 0; 0; 100; 0; 0; 1000; 999999880000; 999999955000], 9000000000000) /\
+  PBb (bmk e0 [bm1; bm2] (BDone [Ok; Ok]) b2s (fst (deliver_bundle e0 b2s [bm1; bm2]))) = true.
+Proof. vm_compute. repeat split; reflexivity. Qed.
+
+(** the last signer prepaying for everybody while the first one still gets its refund is refused: supply and the
+    collector's total are as before, only the per-signer clause trips *)
+Example checker_rejects_fee_from_last_signer :
+  PBb (bmk e0 [bm1; bm2] (BDone [Ok; Ok]) b2s
+         (bank_of [1000000000000; 52507; 1; 50; 0; 0; 100; 0; 0; 1000; 1000000079000; 999999868499] 9000000000000)) = false.
 Proof. vm_compute. reflexivity. Qed.
